@@ -244,6 +244,10 @@ func runC16(ctx *Ctx) error {
 			} else {
 				c.Challenge = r.StringFrom(alnum+"+/=", 1+r.Intn(24))
 			}
+			if r.Intn(6) == 0 {
+				// a challenge may be any text: one that ends like a prompt, a comment or a list
+				c.Challenge += []string{">", "]", ";", " >", "|x", "$"}[r.Intn(6)]
+			}
 		}
 		wire, s, xerr, hung := c16RunSession(c)
 		res.Count("session")
